@@ -103,6 +103,10 @@ class SubFloat(float):
     pass
 
 
+class SubDate(datetime.date):
+    pass
+
+
 class SubList(list):
     pass
 
@@ -265,7 +269,7 @@ LEAF_TYPES: t.Dict[str, t.Callable[[], t.List[t.Any]]] = {
     'lit_str': lambda: [t.Literal['a', 'b']], 'lit_mixed': lambda: [t.Literal[1, 'a', None]],
     # more than eight alternatives (a converter may switch to a table there), with 0 and False both present
     'lit_long': lambda: [t.Literal[0, False, 1, 2, 3, 4, 5, 'a', 'b', None]],
-    'sub_str': lambda: [SubStr], 'sub_int': lambda: [SubInt], 'sub_float': lambda: [SubFloat],
+    'sub_str': lambda: [SubStr], 'sub_int': lambda: [SubInt], 'sub_float': lambda: [SubFloat], 'sub_date': lambda: [SubDate],
     'sub_list': lambda: [SubList], 'sub_dict': lambda: [SubDict],
     # bare (unparameterised) containers
     'bare_list': lambda: [list, t.List], 'bare_tuple': lambda: [tuple, t.Tuple, t.Sequence, collections.abc.Sequence],
@@ -418,7 +422,7 @@ EXT_MEMBERS = {
 # leaves whose images are hashable (usable as set elements / dict keys)
 HASHABLE_LEAVES = ['int', 'float', 'complex', 'str', 'bytes', 'bool', 'none', 'decimal', 'fraction', 'date', 'time',
                    'datetime', 'pattern', 'purepath', 'enum_int', 'enum_str', 'enum_mixed', 'enum_strmix', 'enum_intmix', 'enum_num', 'enum_swap', 'lit_str', 'lit_mixed', 'lit_long',
-                   'sub_str', 'sub_int', 'empty_tuple']
+                   'sub_str', 'sub_int', 'sub_date', 'empty_tuple']
 # reduced leaf set for the second position of binary constructors and for depth 3
 CORE_LEAVES = ['int', 'float', 'str', 'bool', 'none', 'bytes', 'decimal', 'any']
 KEY_LEAVES = ['str', 'int', 'float', 'enum_str', 'lit_str', 'date']
